@@ -35,6 +35,17 @@ RULES = [
     ("ignore-files/src/discover.rs", 479, 479, None, "outside-properties"), ("ignore-files/src/discover.rs", 585, 594, None, "outside-properties"), ("ignore-files/src/discover.rs", 645, 645, None, "outside-properties"),
     # killed by the repository's own tests (outside the task's scope), kept for the record
     ("ignore-files/src/filter.rs", 103, 103, None, "test-killed"), ("filterer/globset/src/lib.rs", 191, 193, None, "test-killed"), ("filterer/globset/src/lib.rs", 215, 215, None, "test-killed"),
+    # second region set: the command-line layer around the library. No listed property speaks about argument normalisation (deprecated flags,
+    # --watch-file, making paths absolute, defaults), about what the CLI prints, its man page / completions / exit code, or --once / --only-emit-events
+    ("cli/src/args.rs", 170, 182, None, "cosmetic"),
+    ("cli/src/args/command.rs", 205, 307, None, "outside-properties"), ("cli/src/args/events.rs", 288, 346, None, "outside-properties"),
+    ("cli/src/args/filtering.rs", 330, 496, None, "outside-properties"),
+    ("cli/src/config.rs", 60, 76, None, "cosmetic"), ("cli/src/config.rs", 90, 130, None, "outside-properties"), ("cli/src/config.rs", 200, 230, None, "outside-properties"),
+    ("cli/src/config.rs", 236, 278, None, "cosmetic"), ("cli/src/config.rs", 295, 312, None, "outside-properties"), ("cli/src/config.rs", 560, 660, None, "cosmetic"),
+    ("cli/src/config.rs", 736, 745, None, "cosmetic"), ("cli/src/lib.rs", 50, 140, None, "outside-properties"),
+    ("ignore-files/src/filter.rs", 455, 460, None, "equivalent"), ("supervisor/src/job/task.rs", 390, 400, None, "cosmetic"),
+    # the list of candidate locations of global ignore files (from_environment) is, like the origins() marker list, a single-source table
+    ("ignore-files/src/discover.rs", 330, 436, None, "undecided-single-source-table"),
     # undecided by design: markers that only origins() knows have no second source to cross-check (DESIGN 7.1)
     ("project-origins/src/lib.rs", 205, 256, "has_file->has_dir", "undecided-single-source-table"), ("project-origins/src/lib.rs", 205, 256, "has_dir->has_file", "undecided-single-source-table"),
 ]
